@@ -86,6 +86,7 @@ fn run(backend: &str, ops: &[SOp]) -> Vec<String> {
 fn assumption_sets(nv: isize) -> Vec<Vec<isize>> {
     let mut v: Vec<Vec<isize>> = vec![vec![]];
     for a in 1..=nv {
+        v.push(vec![a, -a]); // contradictory assumptions: unsat for this call only
         for sa in [a, -a] {
             v.push(vec![sa]);
             for b in (a + 1)..=nv {
@@ -130,6 +131,8 @@ pub fn cmd_sat(a: &Args) {
                 ops.push(SOp::Solve(s.clone()));
             }
             ops.push(SOp::Solve(vec![4])); // assumption on a variable never seen
+            ops.push(SOp::Solve(vec![5, -5])); // contradictory assumptions on a variable never seen
+            ops.push(SOp::Solve(vec![-6, 1, 6])); // ... among others
             ops.push(SOp::Solve(vec![]));
             for b in &backends {
                 jobs.push((b.clone(), ops.clone()));
@@ -156,7 +159,8 @@ pub fn cmd_sat(a: &Args) {
                 for _ in 0..k {
                     let v = rng.gen_range(1..=nv + 1);
                     let l = if rng.gen_bool(0.5) { v } else { -v };
-                    if !c.contains(&l) && !c.contains(&-l) { c.push(l); }
+                    // now and then the assumptions contradict each other
+                    if !c.contains(&l) && (!c.contains(&-l) || rng.gen_bool(0.3)) { c.push(l); }
                 }
                 ops.push(SOp::Solve(c));
             }
